@@ -1,23 +1,35 @@
 (* Property C16 — outputs are finite, non-negative and within statutory caps.
-   PARTIAL: the verified analysis proves finiteness and non-negativity for the nodes listed in
-   /verif/c16_baseline.json (134 of the ~320 nodes of the default targets' graph); the other nodes
-   (subtractions, schedules, helper calls) are covered by the corner sweeps of the real engine only. *)
+   PARTIAL: the verified abstract interpreter proves finiteness (and, where it holds for every
+   input, non-negativity) for the nodes listed per date in /verif/c16_baseline.json; the remaining
+   nodes are covered by the corner sweeps of the real engine only. *)
 From Coq Require Import ZArith QArith Qcanon Bool String List.
-From GettsimModel Require Import Num Val Ast Eval Sign Priority Contrib ChkC16.
+From GettsimModel Require Import Num Val Ast Eval Sign Itv Absint PiecewiseProofs PiecewiseSign Priority Contrib ChkC16.
 Import ListNotations.
 Open Scope Qc_scope.
 
-(* soundness of the analysis: every value returned by a rule it accepts is finite and non-negative,
-   for all argument values that are themselves finite and non-negative *)
-Theorem C16_rule_analysis_sound_partial : forall call P s G rho G',
-  params_bound P rho -> env_ok G rho -> nn_s P G s = (G', true) ->
-  match exec call rho s with
-  | OReturn v => fnn v
-  | ONormal rho' => env_ok G' rho' /\ params_bound P rho'
-  | OError _ => True
-  end.
-Proof. exact nn_s_sound. Qed.
-Print Assumptions C16_rule_analysis_sound_partial.
+(* soundness of the abstract interpreter: whenever the concrete arguments are described by the
+   abstract ones and the rule (with the helpers it calls) returns a value, that value is described
+   by the abstract result — AItv i: a finite number within the bounds of i *)
+Theorem C16_rule_analysis_sound : forall ft fd l vs v,
+  Forall2 arel l vs -> call_rule ft fd vs = Ok v -> arel (rule_aval ft fd l) v.
+Proof. exact rule_aval_sound. Qed.
+Print Assumptions C16_rule_analysis_sound.
+
+(* what the abstract result means *)
+Theorem C16_fin_means_finite : forall a v, a_fin a = true -> arel a v -> finv v.
+Proof. exact a_fin_sound. Qed.
+Print Assumptions C16_fin_means_finite.
+
+Theorem C16_nn_means_finite_nonneg : forall a v, a_nn a = true -> arel a v -> fnn v.
+Proof. exact a_nn_sound. Qed.
+Print Assumptions C16_nn_means_finite_nonneg.
+
+(* a piecewise-polynomial schedule accepted by the sign checker is non-negative (from the lower
+   bound of its argument on) *)
+Theorem C16_schedule_nonneg : forall lo c0 ps, PiecewiseSign.nn_chk lo c0 ps = true ->
+  forall x, PiecewiseSign.above lo x -> 0 <= PiecewiseProofs.ev0 c0 ps x.
+Proof. exact PiecewiseSign.nn_chk_sound. Qed.
+Print Assumptions C16_schedule_nonneg.
 
 (* statutory rounding keeps non-negative values non-negative *)
 Theorem C16_rounding_keeps_nonneg : forall base dir off x, 0 < base -> 0 <= off -> 0 <= x ->
